@@ -16,15 +16,16 @@ from verif.stubs.fakefs import world
 
 PROPERTY = "C13"
 B = h.bounds(
-    quick=dict(LEN=2, SHAPES=5, SUF=1),
-    thorough=dict(LEN=3, SHAPES=5, SUF=2),
+    quick=dict(LEN=2, SHAPES=6, SUF=1),
+    thorough=dict(LEN=3, SHAPES=6, SUF=2),
 )
 ITEMS = ["data element", "SetContext('a','A')", "SetContext('b.c',1)", "SetContext('d','{{a}}_x')",
          "StoreContext", "UpdateContextFromStatic", "MakeFilename('{{a}}')", "Write('{{a}}')",
          "Cache('{{a}}.pkl')", "SetContext('a','B')"]
 SHAPES = ["flat Sequence", "tail nested in a Sequence at a symbolic cut",
           "tail as one branch of a Split next to a SetContext('e','E') branch",
-          "Source(generator, *items)", "head nested in a Sequence at a symbolic cut"]
+          "Source(generator, *items)", "head nested in a Sequence at a symbolic cut",
+          "Source(generator, Sequence(head), *tail)"]
 BOUNDS = dict(vars(B), items=ITEMS, shapes=SHAPES, meaning="programs of <= LEN items over `items` in "
               "the first SHAPES tree shapes (symbolic cut), extended by a suffix of <= SUF later "
               "SetContext elements / a sibling Split branch, which must not change any earlier "
@@ -118,7 +119,7 @@ def reference(kinds, shape, cut):
                 obs[p] = None if failed else copy.deepcopy(ctx)
         return ctx, failed
 
-    if shape in (0, 1, 3, 4):
+    if shape in (0, 1, 3, 4, 5):
         ctx, failed = walk(range(n), ctx, failed)
         return obs, ("keyerror" if failed else ctx)
     # Split: head, then branch 0 = tail, branch 1 = SetContext('e', 'E')
@@ -149,8 +150,10 @@ def build(kinds, shape, cut, suffix, sibling):
         seq = Sequence(*(els[:cut] + [Split(branches)] + suf))
     elif shape == 3:
         seq = Source(_gen, *(els + suf))
-    else:
+    elif shape == 4:
         seq = Sequence(*([Sequence(*els[:cut])] + els[cut:] + suf))
+    else:
+        seq = Source(*([_gen, Sequence(*els[:cut])] + els[cut:] + suf))
     return seq, els
 
 
@@ -197,7 +200,7 @@ def check_program(n: int, k0: int, k1: int, k2: int, k3: int, shape: int, cut: i
     sib = True if sibling else False
     if shape == 2 and cut == n:
         cut = n - 1          # a Split branch needs at least one element
-    if shape == 4 and cut == 0:
+    if shape in (4, 5) and cut == 0:
         cut = 1
     obs, final = reference(kinds, shape, cut)
     with world([cache_mod, write_mod]):
@@ -220,6 +223,20 @@ def check_program(n: int, k0: int, k1: int, k2: int, k3: int, shape: int, cut: i
                 return h.ok(False)
         elif got != final:
             return h.ok(False)
+        # the nested head sequence keeps the fold of its own prefix, whatever follows it
+        if shape in (4, 5):
+            hobs, hfinal = reference(kinds[:cut], 0, 0)
+            inner = seq[0] if shape == 4 else seq[1]
+            for sfx in ([0, suffix] if suffix else [0]):
+                if sfx:
+                    seqx, _ = build(kinds, shape, cut, sfx, False)
+                    inner = seqx[0] if shape == 4 else seqx[1]
+                try:
+                    got_inner = inner._get_context()
+                except LenaKeyError:
+                    got_inner = "keyerror"
+                if got_inner != hfinal:
+                    return h.ok(False)
         # a later element / sibling branch changes no earlier observation
         if suffix or (sib and shape == 2):
             seq2, els2 = build(kinds, shape, cut, suffix, sib)
@@ -275,7 +292,7 @@ CONDITIONS = [
     dict(fn="check_program", shards=(20, 20), budget=(90, 1500),
          smoke=["check_program(2, 1, 4, 2, 0, 0, 0, 1, False)", "check_program(2, 1, 3, 5, 0, 1, 1, 1, False)",
                 "check_program(2, 1, 6, 7, 0, 2, 1, 0, True)", "check_program(2, 3, 4, 8, 0, 3, 0, 0, False)",
-                "check_program(2, 9, 4, 0, 0, 2, 1, 0, False)", "check_program(2, 1, 6, 0, 0, 4, 1, 1, False)"]),
+                "check_program(2, 9, 4, 0, 0, 2, 1, 0, False)", "check_program(2, 1, 6, 0, 0, 4, 1, 1, False)", "check_program(2, 1, 5, 0, 0, 5, 1, 1, False)"]),
     dict(fn="check_no_leak", shards=(7, 7), budget=(80, 900),
          smoke=["check_no_leak(3, 1, 5, 6, False)", "check_no_leak(2, 1, 6, 0, True)"]),
 ]
